@@ -42,3 +42,22 @@ func cmdSpvDis(c *ctx) {
 }
 
 func init() { commands["spvdis"] = cmdSpvDis }
+
+// emit: print the HLSL / MSL / GLSL text emitted for WGSL files (debugging aid).
+func cmdEmit(c *ctx) {
+	for _, f := range c.args {
+		b, _ := os.ReadFile(f)
+		m, res := frontEnd(string(b))
+		if m == nil {
+			fmt.Println("front end:", res)
+			continue
+		}
+		outs, rs := backends(m, "main")
+		fmt.Println("// results:", rs)
+		fmt.Println("//==== HLSL\n" + outs.hlsl)
+		fmt.Println("//==== MSL\n" + outs.msl)
+		fmt.Println("//==== GLSL\n" + outs.glsl)
+	}
+}
+
+func init() { commands["emit"] = cmdEmit }
